@@ -60,7 +60,8 @@ for pid, (cat, ref, tech, text) in CHECKS.items():
         "evidence_file": f"/verif/evidence/{pid}.json",
         "replay_cmd_template": f"./check {pid} --replay {{path}}",
         "engine": "cctverif",
-        "level_claimed": {"category": cat, "text": text, "design_ref": "DESIGN.md section " + ref},
+        "level_claimed": {"category": cat, "text": text + "  Driver dimensions added since (scale, process environments, clock, aliasing between arguments, dead output stream, "
+                          "fault classes, unusual-but-valid documents, ordinary-mutant thin spots) are listed per property in DESIGN.md 12.5.", "design_ref": "DESIGN.md section " + ref},
         "level_note": TB,
         "technique": tech,
     })
@@ -77,7 +78,7 @@ manifest = {
                  "kind_free_text": "explicit TLA+ specification in /verif/spec checked by TLC; spec->code replay of TLC-enumerated cases/behaviours and code->spec trace validation (Trace_*.tla)"}],
     "checks": checks,
     "not_applicable": na,
-    "notes": "Entry point: ./check <id> --tier quick|thorough [--replay <path>]; VERIF_SEED, VERIF_TIER and VERIF_REPO are honoured. Exit 0 held / 1 VIOLATION / 2 machinery failure. Defects D1-D4 and D7 found by these checks were repaired in /repo by fix: commits (known_findings.json).",
+    "notes": "Entry point: ./check <id> --tier quick|thorough [--replay <path>]; VERIF_SEED, VERIF_TIER and VERIF_REPO are honoured. Exit 0 held / 1 VIOLATION / 2 machinery failure. Defects D1-D8 found by these checks were repaired in /repo by fix: commits (known_findings.json, DESIGN.md 12.3).",
 }
 with open(os.path.join(HERE, "MANIFEST.json"), "w") as f:
     json.dump(manifest, f, indent=1)
